@@ -327,9 +327,10 @@ func (h kvHandler) handleKvCheckTxnStatus(req *kvrpcpb.CheckTxnStatusRequest) *k
 		panic("KvCheckTxnStatus: key not in region")
 	}
 	var resp kvrpcpb.CheckTxnStatusResponse
-	if req.GetVerifyIsPrimary() {
+	if req.GetVerifyIsPrimary() && req.GetResolvingPessimisticLock() {
 		// A lock of the transaction on this key that names another key as its primary (a stale lock of a
 		// pessimistic transaction whose primary changed) is not the primary lock: report it, change nothing.
+		// Only for a caller that is resolving a pessimistic lock - the one caller that handles the answer.
 		locks, err := h.mvccStore.ScanLock(req.GetPrimaryKey(), append(append([]byte{}, req.GetPrimaryKey()...), 0), math.MaxUint64)
 		if err != nil {
 			resp.Error = convertToKeyError(err)
